@@ -196,6 +196,11 @@ impl<'a> Emitter<'a> {
                 parts.push(format!("{}({})", c, ch as u32));
             } else {
                 buf.push(ch);
+                // the parser rejects long string literals ("IdentifierTooLong")
+                if buf.len() >= 30 {
+                    parts.push(format!("\"{}\"", buf));
+                    buf.clear();
+                }
             }
         }
         if !buf.is_empty() || parts.is_empty() {
